@@ -94,8 +94,11 @@ def to_text(toks, rnd):
                 sep = ' '
             elif k < 0.75:
                 sep = '\n  '
-            elif k < 0.9:
+            elif k < 0.83:
                 sep = ' # note [a, {b: c},]\n'
+            elif k < 0.9:
+                # a comment ends at the line feed only: form feed, carriage return, FS/GS, NEL are ordinary characters in it
+                sep = ' # note\x0c [a, \x1d{b: c},]\r\x85 x\u2028 y\n'
             else:
                 sep = '  \n\n\t'
             out.append(sep)
